@@ -188,3 +188,11 @@ impl Invariant for Vec<VecDeque<NodeRef>> {
         }
     }
 }
+
+#[cfg(cormacrelf_incremental_rs_verif)]
+impl AdjustHeightsHeap {
+    /// verification hook: (length, max_height_seen, number of queues)
+    pub(crate) fn verif_info(&self) -> (usize, i32, usize) {
+        (self.length, self.max_height_seen, self.queues.len())
+    }
+}
